@@ -247,6 +247,60 @@ def target_of(case, o):
     return tgt
 
 
+def is_subseq(xs, ys):
+    it = iter(ys)
+    return all(any(x == y for y in it) for x in xs)
+
+
+def written_values(ctx, cases, res):
+    """Direct oracle from the property text, with the reading computed by the extracted model
+    (View.view): on an accepted command line that reads cleanly, under a spec without '--', every
+    option variable holds exactly the values of its occurrences in command-line order, and the
+    positional tokens are bound exactly once each, in order (theorem C02_written_values_exactly
+    says so of the model)."""
+    acc = [c for c in cases if accepted(res[c["id"]][0]) and target_of(c, res[c["id"]][0]) is not None]
+    qs = [{"op": "views", "id": "w%s" % c["id"], "env": c.get("env", {}), "decls": c["root"]["decls"],
+           "spec": c["root"]["spec"], "argvs": [c["argv"]]} for c in acc]
+    sm = core.run_model(qs) if qs else {}
+    st = {"accepted": len(acc), "under_theorem": 0, "spec_dd": 0, "not_sane": 0, "unreadable_or_q1": 0}
+    for c in acc:
+        r = sm.get("w%s" % c["id"])
+        if not isinstance(r, list) or r[0] != "ok":
+            continue
+        _, sane, nodd, views = r
+        if sane != "1":
+            st["not_sane"] += 1
+            continue
+        if nodd != "1":
+            st["spec_dd"] += 1
+            continue
+        u = views[0]
+        if u == "none":
+            st["unreadable_or_q1"] += 1
+            continue
+        st["under_theorem"] += 1
+        a = res[c["id"]][0]
+        tgt = target_of(c, a)
+        pos = [x[1] for x in u if x[0] == "p"]
+        bound_pos = []
+        for k, vals in tgt:
+            if k.startswith("o:"):
+                want = [x[2] for x in u if x[0] == "o" and x[1] == k[2:]]
+                if vals != want:
+                    ctx.violation("written-values", "spec %r, command line %r: option %s holds %r but the values written for it are %r"
+                                  % (c["root"]["spec"], c["argv"], k, vals, want), case=c, impl=a["values"])
+            else:
+                bound_pos += vals
+                if not is_subseq(vals, pos):
+                    ctx.violation("written-values", "spec %r, command line %r: argument %s holds %r, not a subsequence of the positionals %r"
+                                  % (c["root"]["spec"], c["argv"], k, vals, pos), case=c, impl=a["values"])
+        if sorted(bound_pos) != sorted(pos):
+            ctx.violation("written-values", "spec %r, command line %r: positionals %r but bound %r (dropped, invented or duplicated)"
+                          % (c["root"]["spec"], c["argv"], pos, bound_pos), case=c, impl=a["values"])
+    return st
+
+
+
 def judge_sentences(ctx, cases, res, prop):
     """direct oracle for C01/C02: the reference semantics against the implementation"""
     qs = sentence_cases(cases)
@@ -257,6 +311,8 @@ def judge_sentences(ctx, cases, res, prop):
                 q["target"] = target_of(c, a)
     sm = core.run_model(qs)
     stats = {"claimed": 0, "accept": 0, "reject": 0, "unclaimed": 0, "k2": 0, "derivations": 0}
+    if prop == "C02":
+        stats["theorem_C02_written_values_exactly"] = written_values(ctx, cases, res)
     for c in cases:
         a, b = res[c["id"]]
         r = sm[c["id"]]
